@@ -846,7 +846,12 @@ class AdapterLookupBase:
             if not extendors:
                 continue
 
-            components = byorder[order]
+            try:
+                components = byorder[order]
+            except IndexError:
+                # Another thread unregistered the last entry of this
+                # order since we checked.
+                continue
             result = _lookup(components, required, extendors, name, 0,
                              order)
             if result is not None:
@@ -880,7 +885,11 @@ class AdapterLookupBase:
             extendors = registry._v_lookup._extendors.get(provided)
             if not extendors:
                 continue
-            components = byorder[order]
+            try:
+                components = byorder[order]
+            except IndexError:
+                # See _uncached_lookup.
+                continue
             _lookupAll(components, required, extendors, result, 0, order)
 
         self._subscribe(*required)
@@ -906,7 +915,12 @@ class AdapterLookupBase:
                 if extendors is None:
                     continue
 
-            _subscriptions(byorder[order], required, extendors, '',
+            try:
+                components = byorder[order]
+            except IndexError:
+                # See _uncached_lookup.
+                continue
+            _subscriptions(components, required, extendors, '',
                            result, 0, order)
 
         self._subscribe(*required)
